@@ -63,6 +63,14 @@ def describe(b, with_line):
     return d
 
 
+def lines_of(b):
+    """start lines recorded for a block and its fields"""
+    out = [b.start_line]
+    if isinstance(b, M.Entry):
+        out += [f.start_line for f in b.fields]
+    return out
+
+
 def native_blocks(text):
     import logging
     logging.disable(logging.CRITICAL)
@@ -83,6 +91,11 @@ def replay(d1, x, d2, frag=False):
         return {"input": text, "observed": g, "expected": f"prefix {p}"}
     if len(got) < len(b1) + len(b2) or g[len(g) - len(b2):] != s:
         return {"input": text, "observed": g, "expected": f"suffix {s}"}
+    # line numbers of the suffix: those of D2 on its own, shifted by the number of line feeds before it
+    shift = (d1 + x + "\n").count("\n")
+    for gb, sb in zip(got[len(got) - len(b2):], b2):
+        if lines_of(gb) != [l + shift for l in lines_of(sb)]:
+            return {"input": text, "observed": {"lines of suffix block": lines_of(gb)}, "expected": [l + shift for l in lines_of(sb)]}
     if not frag and x.strip() == "" and len(got) != len(b1) + len(b2):
         return {"input": text, "observed": g, "expected": "concatenation law: nothing between the two documents"}
     return None
@@ -98,7 +111,10 @@ def task(n1, n2, L):
     xs = mk(chars(text)[xa:xb])
     E = eng.I.models.eq_simple
     b1 = [] if frag else [describe(b, True) for b in native_blocks(d1)]
-    b2 = [describe(b, False) for b in native_blocks(d2)]
+    nb2 = native_blocks(d2)
+    b2 = [describe(b, False) for b in nb2]
+    l2 = [lines_of(b) for b in nb2]
+    head = chars(text)[:xb + 1]          # D1 + X + the line feed before D2
     worlds = eng.run(drv, [text])
     for W in worlds:
         rp = lambda m: replay(d1, eng.model_str(m, xs), d2, frag)
@@ -112,6 +128,16 @@ def task(n1, n2, L):
         pre = E([describe(b, True) for b in got[:len(b1)]], b1)
         suf = E([describe(b, False) for b in got[len(got) - len(b2):]], b2)
         rec.require(W, b_not(b_and(pre, suf)), "prefix-and-suffix", rp)
+        # the suffix keeps its own line structure, shifted by the number of line feeds in front of it
+        lines_ok = True
+        for gb, own in zip(got[len(got) - len(b2):], l2):
+            mine = lines_of(gb)
+            if len(mine) != len(own) or not all(isinstance(v, int) for v in mine):
+                lines_ok = False
+                break
+            for v, o in zip(mine, own):
+                lines_ok = b_and(lines_ok, count_nl_eq(head, v - o))
+        rec.require(W, b_and(suf, b_not(lines_ok)), "suffix-lines-shifted", rp)
         if len(got) != len(b1) + len(b2) and not frag:
             blank = b_all(is_space(c) for c in chars(xs))
             rec.require(W, blank, "concatenation-law", rp)
